@@ -470,7 +470,7 @@ def sha(b):
 DIAG = re.compile(r"^(?P<l>\d+):(?P<c>\d+): (?P<what>error|warning): (?P<m>.*)$")
 
 
-def invoke(inputs, outs=None, outdir=None, cwd=None, env=None, keep=False, color=True, timeout=120, stdout_file=None):
+def invoke(inputs, outs=None, outdir=None, cwd=None, env=None, keep=False, color=True, timeout=120, stdout_file=None, prefill=None):
     """inputs: list of (path as given on the command line, absolute input path, absolute output path).
     Returns (rc, [per-input dict], raw stdout).  Per input: status ok/err/none, kind, loc, nwarn, lines (normalised),
     sha (of the output file, None when absent)."""
@@ -486,6 +486,9 @@ def invoke(inputs, outs=None, outdir=None, cwd=None, env=None, keep=False, color
             os.unlink(o)
         except OSError:
             pass
+        if prefill is not None:
+            with open(o, "wb") as fh:
+                fh.write(prefill)
     try:
         if stdout_file:
             with open(stdout_file, "wb") as fh:
@@ -647,6 +650,17 @@ def perturbations(ctx, d, shim):
         ins = [(os.path.join(sd, p["name"] + ".rsyn"), os.path.join(sd, p["name"] + ".rsyn"), outs[i]) for i, p in enumerate(ps)]
         return invoke(ins, outs=outs, cwd="/", env=base_env())
 
+    def existing_outputs(ps):
+        # every output path already holds an older capture (a well-formed pcap of three records, longer than most outputs):
+        # what a run leaves behind -- the new capture, or nothing for a failing input -- must not depend on it
+        od = mk(os.path.join(d, "out_old"))
+        old = common.STALE_PCAP if hasattr(common, "STALE_PCAP") else (
+            bytes.fromhex("4d3cb2a1020004000000000000000000ffff000001000000") +
+            b"".join(bytes.fromhex("00000000") + (1000 * (i + 1)).to_bytes(4, "little") + (600).to_bytes(4, "little") * 2 + bytes([i]) * 600
+                     for i in range(3)))
+        ins = [(os.path.join(sd, p["name"] + ".rsyn"),) * 2 + (os.path.join(od, p["name"] + ".pcap"),) for p in ps]
+        return invoke(ins, outdir=od, cwd=od, env=base_env(), prefill=old)
+
     def shimmed(tag, off, pid, seed, fuzz):
         def f(ps):
             od = mk(os.path.join(d, "out_" + tag))
@@ -687,7 +701,8 @@ def perturbations(ctx, d, shim):
     P = COL + [("env", "TZ, LANG, LC_ALL, HOME, PATH, TMPDIR and 16 junk variables (RESYNTH_DEBUG, RUST_LOG, SOURCE_DATE_EPOCH, ..) set; "
                  "default --color", envvars),
          ("cwd-relative-paths", "run from another directory with relative input paths and a relative --out-dir", cwd_rel),
-         ("explicit-output-names", "-o <other dir>/renamed-NNN.capture per input, cwd=/", explicit_o)]
+         ("explicit-output-names", "-o <other dir>/renamed-NNN.capture per input, cwd=/", explicit_o),
+         ("existing-outputs", "every output path already holds an older well-formed capture of three 600-byte records", existing_outputs)]
     if shim:
         P.append(("fake-clock+400d,pid,random,getenv", "LD_PRELOAD lib/c13shim.c: clock +400 days, pid 4242, getrandom seed 1, "
                   "every getenv answers '1'", shimmed("shimA", 400 * 86400, 4242, 1, "1")))
